@@ -36,6 +36,8 @@ mod c13;
 mod c14;
 mod c15;
 mod c16;
+mod c17;
+mod concat;
 
 fn main() {
     let args: Vec<String> = std::env::args().skip(1).collect();
@@ -92,6 +94,7 @@ fn prop_fn(name: &str) -> Option<fn(&mut rep::Ctx)> {
         "c14" => c14::run,
         "c15" => c15::run,
         "c16" => c16::run,
+        "c17" => c17::run,
         _ => return None,
     })
 }
